@@ -479,6 +479,8 @@ func Replay(c *core.Ctx, lines []string) {
 			mn, _ := strconv.Atoi(f[1])
 			mx, _ := strconv.Atoi(f[2])
 			doDepth(c, cli, mn, mx, s2b(f[3]), s2b(f[4]), mustDump(f[5]))
+		case f[0] == "C07.nonfinite" && len(f) >= 3:
+			doNonFinite(c, f[1], mustDump(f[2]))
 		case f[0] == "C07.seq" && len(f) >= 3:
 			doSeq(c, strings.Split(f[1], ";"), mustDump(f[2]))
 		case f[0] == "C07.cmd" && len(f) >= 6:
@@ -519,8 +521,41 @@ func collect(n *core.N, f func(k *core.N)) {
 	}
 }
 
+// doNonFinite: thresholds the flag parser accepts but that are no numbers of the model (CLI only).
+func doNonFinite(c *core.Ctx, kind string, n *core.N) {
+	if c.Gotree == "" {
+		return
+	}
+	file, seen := viaNewick(c, n)
+	var args []string
+	switch kind {
+	case "l-inf":
+		args = []string{"collapse", "length", "-i", file, "-l", "inf"}
+	case "l-nan":
+		args = []string{"collapse", "length", "-i", file, "-l", "nan"}
+	case "l-ninf":
+		args = []string{"collapse", "length", "-i", file, "-l", "-inf"}
+	case "s-nan":
+		args = []string{"collapse", "support", "-i", file, "-s", "nan"}
+	default:
+		kind = "s-inf"
+		args = []string{"collapse", "support", "-i", file, "-s", "inf"}
+	}
+	out, a := parseOut(c.RunCLI("", 20*time.Second, args...))
+	c.Emit("C07.nonfinite@cli", kind, seen.Dump(), out, a)
+}
+
 func lenCase(c *core.Ctx, cli bool) {
 	n := genTree(c, cli)
+	if c.G.Chance(0.5) {
+		// half of the length cases on trees where EVERY branch has a length: the verdict then does not
+		// rest on how an absent length is read
+		collect(n, func(k *core.N) {
+			if k.E.Len == -1 {
+				k.E.Len = float64(c.G.Intn(40)) / 8
+			}
+		})
+	}
 	var vals []float64
 	collect(n, func(k *core.N) {
 		if len(k.Kids) > 0 || c.G.Chance(0.2) {
@@ -666,6 +701,9 @@ func Run(c *core.Ctx) {
 		m := c.Scale(40, 800)
 		for i := 0; i < c.Scale(1, 12); i++ {
 			cmdCases(c) // every flag combination of the four commands
+			for _, kind := range []string{"l-inf", "l-nan", "l-ninf", "s-nan", "s-inf"} {
+				doNonFinite(c, kind, genTree(c, true))
+			}
 		}
 		for i := 0; i < m/8; i++ {
 			multiCLI(c)
